@@ -66,22 +66,25 @@ type vmInfo struct {
 const maxStepsBetweenPoints = 100000
 
 type world struct {
-	s         *vsched.Sched
-	d         driver
-	c         *tengo.Compiled
-	fnNames   map[uintptr]string
-	vms       []*vmInfo
-	cancelled bool
-	phase     int // 0 before first call, 1 first returned, 2 set done, 3 second returned, 4 finished
-	err1      string
-	err2      string
-	out       string
-	problems  []string
-	preCancel bool
+	s            *vsched.Sched
+	d            driver
+	c            *tengo.Compiled
+	fnNames      map[uintptr]string
+	vms          []*vmInfo
+	cancelled    bool
+	phase        int // 0 before first call, 1 first returned, 2 set done, 3 second returned, 4 finished
+	err1         string
+	err2         string
+	out          string
+	problems     []string
+	preCancel    bool
+	observed     string
+	observerDone bool
 }
 
 type harness struct {
-	d driver
+	d        driver
+	observer bool // a third API user: Get + IsDefined on the same object while the run is in flight
 }
 
 func errClass(err error) string {
@@ -172,6 +175,16 @@ func (h harness) Start(s *vsched.Sched) vsched.World {
 		cancel()
 		w.cancelled = true
 	})
+	if h.observer {
+		s.Spawn("observer", func() {
+			v := c.Get("out")
+			w.observed = val.Snapshot(v.Object())
+			if c.IsDefined("nosuch") {
+				w.problems = append(w.problems, "IsDefined(nosuch) is true")
+			}
+			w.observerDone = true
+		})
+	}
 	return w
 }
 
@@ -238,7 +251,7 @@ func (w *world) globalsKey() string {
 
 func (w *world) Key() string {
 	var sb strings.Builder
-	fmt.Fprintf(&sb, "ph=%d e1=%s e2=%s out=%s cancelled=%v problems=%d|", w.phase, w.err1, w.err2, w.out, w.cancelled, len(w.problems))
+	fmt.Fprintf(&sb, "ph=%d e1=%s e2=%s out=%s cancelled=%v problems=%d obs=%s/%v|", w.phase, w.err1, w.err2, w.out, w.cancelled, len(w.problems), w.observed, w.observerDone)
 	for _, vm := range w.vms {
 		sb.WriteString(w.vmKey(vm) + "|")
 	}
@@ -249,6 +262,9 @@ func (w *world) Key() string {
 func (w *world) CheckState() []string {
 	var out []string
 	out = append(out, w.problems...)
+	if !w.observerLegal() {
+		out = append(out, "a concurrent Get(out) observed "+w.observed)
+	}
 	for i, vm := range w.vms {
 		if vm.afterAbort > 1 {
 			out = append(out, fmt.Sprintf("VM #%d dispatched %d instructions after the abort flag was set (at most 1 allowed)", i+1, vm.afterAbort))
@@ -288,12 +304,25 @@ func (w *world) CheckTerminal() ([]string, string) {
 
 func (w *world) Pending() bool { return w.phase < 4 }
 
+// the observer holds the read lock, so it can only see a state between complete API calls
+func (w *world) observerLegal() bool {
+	if !w.observerDone {
+		return true
+	}
+	switch w.observed {
+	case "undefined", "int:0", "int:7", "int:42":
+		return true
+	}
+	return false
+}
+
 type Case struct {
-	Driver   string           `json:"driver"`
-	Kind     string           `json:"kind"`
-	Msg      string           `json:"msg"`
-	Schedule []vsched.Action  `json:"schedule"`
-	Trace    []string         `json:"trace,omitempty"`
+	Observer bool            `json:"observer,omitempty"`
+	Driver   string          `json:"driver"`
+	Kind     string          `json:"kind"`
+	Msg      string          `json:"msg"`
+	Schedule []vsched.Action `json:"schedule"`
+	Trace    []string        `json:"trace,omitempty"`
 }
 
 func sigOf(kind, msg string) string {
@@ -332,7 +361,7 @@ func main() {
 				}
 				for rep := 0; rep < 2; rep++ {
 					s := vsched.NewSched()
-					w := harness{d}.Start(s)
+					w := harness{d: d, observer: c.Observer}.Start(s)
 					ok := true
 					for _, a := range c.Schedule {
 						en := false
@@ -367,7 +396,7 @@ func main() {
 	var states, trans, execs, terms, branching int64
 	outcomes := report.NewDistinctSet()
 	for _, d := range drivers {
-		res := vsched.Explore(harness{d}, vsched.Options{MaxStates: r.Pick(300000, 3000000)})
+		res := vsched.Explore(harness{d: d, observer: r.Thorough()}, vsched.Options{MaxStates: r.Pick(300000, 3000000)})
 		tengo.VerifNewVM = nil
 		states += int64(res.States)
 		trans += int64(res.Transitions)
@@ -388,7 +417,7 @@ func main() {
 			r.Internal("driver %s: %s", d.name, m)
 		}
 		for _, v := range res.Violations {
-			r.Violation("driver="+d.name+"/"+sigOf(v.Kind, v.Msg), v.Msg, Case{Driver: d.name, Kind: v.Kind, Msg: v.Msg, Schedule: v.Schedule, Trace: tail(v.Trace, 40)})
+			r.Violation("driver="+d.name+"/"+sigOf(v.Kind, v.Msg), v.Msg, Case{Observer: r.Thorough(), Driver: d.name, Kind: v.Kind, Msg: v.Msg, Schedule: v.Schedule, Trace: tail(v.Trace, 40)})
 		}
 		r.Sample(map[string]interface{}{"driver": d.name, "script": d.src, "threads": "caller(RunContext; Set; RunContext; Get) | vm goroutine(s) | canceller", "outcomes": res.Outcomes})
 	}
@@ -406,6 +435,16 @@ func main() {
 		Nontrivial:  outcomes.Len() + branching,
 		Rule:        "states = distinct global state keys (scheduler state + caller observations + VM registers/frames/stack/globals) over all interleavings of caller, VM goroutine(s) and canceller for each driver script; transitions = scheduling steps executed on the real instrumented code; validated = complete executions (each a replay from the initial state); non-trivial = distinct terminal outcomes + states with more than one enabled action",
 	})
+}
+
+func maxThread(a []vsched.Action) int {
+	m := 0
+	for _, x := range a {
+		if x.Thread > m {
+			m = x.Thread
+		}
+	}
+	return m
 }
 
 func tail(s []string, n int) []string {
